@@ -321,6 +321,8 @@ class FakeSession:
                     raise aiohttp.ClientConnectionError('simulated connection error')
                 if fault.kind == 'timeout':
                     raise asyncio.TimeoutError()
+                if fault.kind == 'sslclosed':       # the TLS stream was shut down under the session (the credentials are still fine)
+                    raise aiohttp.ClientOSError(1, '[SSL: APPLICATION_DATA_AFTER_CLOSE_NOTIFY] application data after close notify')
                 hdrs = {'Retry-After': str(fault.retry_after)} if fault.retry_after is not None else {}
                 if resp is not None and resp.content is not None:
                     resp.close()
